@@ -46,23 +46,38 @@ const (
 var (
 	c01ErrA = errors.New("c01: error A")
 	c01ErrB = errors.New("c01: error B")
+	// an error that WRAPS the breaker's sentinel (what a caller gets from a nested, open
+	// breaker further down once some layer in between has added context with %w)
+	c01ErrWrapped = fmt.Errorf("c01: inner dependency: %w", ErrServiceUnavailable)
 )
 
 type c01PanicT struct{ x int }
 
 var c01PanicPtr = &c01PanicT{7}
 
-// error ids used by cases: 0 nil, 1 errA, 2 errB, 3 ErrServiceUnavailable (returned by req itself)
-func c01Err(id int) error {
-	switch id {
+// outcomes of the protected function that are errors: 0 nil, 1 errA, 2 errB,
+// 3 ErrServiceUnavailable (returned by req itself), 5 an error wrapping ErrServiceUnavailable
+// (4 is "panics"). Error ids (bits of an acceptable-predicate): 0..3 as the outcomes, 4 = wrapped.
+func c01Err(out int) error {
+	switch out {
 	case 1:
 		return c01ErrA
 	case 2:
 		return c01ErrB
 	case 3:
 		return ErrServiceUnavailable
+	case 5:
+		return c01ErrWrapped
 	}
 	return nil
+}
+
+// c01AccBit: the bit of an acceptable-predicate that decides outcome out.
+func c01AccBit(out int) uint {
+	if out == 5 {
+		return 4
+	}
+	return uint(out)
 }
 
 func c01ErrID(err error) int {
@@ -75,6 +90,8 @@ func c01ErrID(err error) int {
 		return 2
 	case ErrServiceUnavailable:
 		return 3
+	case c01ErrWrapped:
+		return 4
 	}
 	return -1
 }
@@ -95,11 +112,17 @@ func c01PanicVal(pv int) any {
 	return "c01 boom"
 }
 
-// c01DoPanic raises the panic of kind pv; kind 5 is a genuine runtime error.
+// c01DoPanic raises the panic of kind pv; kind 5 is a genuine runtime error, kind 6 is
+// panic(nil) (the check is built with Go >= 1.21 semantics: recover() then yields a
+// *runtime.PanicNilError, i.e. it is a panic like any other).
 func c01DoPanic(pv int) {
 	if pv == 5 {
 		var m map[string]int
 		m["c01"] = 1
+	}
+	if pv == 6 {
+		var nothing any
+		panic(nothing)
 	}
 	panic(c01PanicVal(pv))
 }
@@ -113,6 +136,9 @@ func c01PanicSame(pv int, got any) bool {
 	case 5:
 		re, ok := got.(runtime.Error)
 		return ok && strings.Contains(re.Error(), "nil map")
+	case 6:
+		_, ok := got.(*runtime.PanicNilError)
+		return ok
 	}
 	defer func() { _ = recover() }()
 	return got == c01PanicVal(pv)
@@ -147,10 +173,11 @@ type c01Op struct {
 	G   int    `json:"g,omitempty"`   // goroutine that issues the op
 	Via int    `json:"via,omitempty"` // 0 Do 1 DoWithAcceptable 2 DoWithFallback 3 DoWithFallbackAcceptable
 	Rt  int    `json:"rt,omitempty"`  // registry targets: 0 package func, 1 Get(name).X, 2 handle obtained earlier
-	Out int    `json:"out,omitempty"` // 0 nil 1 errA 2 errB 3 ErrServiceUnavailable 4 panic
-	PV  int    `json:"pv,omitempty"`  // panic value kind
+	Out int    `json:"out,omitempty"` // 0 nil 1 errA 2 errB 3 ErrServiceUnavailable 4 panic 5 an error wrapping ErrServiceUnavailable
+	PV  int    `json:"pv,omitempty"`  // panic value kind (of req, of the acceptable-predicate, of the fallback)
 	Acc int    `json:"acc,omitempty"` // acceptable predicate: bit i set <=> error id i acceptable
-	Fb  int    `json:"fb,omitempty"`  // fallback returns: 0 nil 1 errB 2 its argument
+	AP  int    `json:"ap,omitempty"`  // 1: the acceptable-predicate itself panics (value kind PV)
+	Fb  int    `json:"fb,omitempty"`  // fallback returns: 0 nil 1 errB 2 its argument; 3: the fallback panics (value kind PV)
 	Sl  int64  `json:"sl,omitempty"`  // ns slept inside req before it returns
 	N   int    `json:"n,omitempty"`   // repeat count (call, pburst)
 	Ok  bool   `json:"ok,omitempty"`  // resolve/pburst: Accept (true) or Reject (false)
@@ -372,6 +399,7 @@ func (in *c01Interp) ensureDirect(br *c01Brk, idx int) {
 	} else {
 		br.b = New(WithName(fmt.Sprintf("direct-%d", idx)))
 	}
+	_ = br.b.Name() // executed only: the statement says nothing about what Name() reports
 }
 
 // checkWindows: after every op the breaker's own window must equal the model.
@@ -449,6 +477,7 @@ type c01Obs struct {
 	panicked        bool
 	pval            any
 	markAt          time.Duration
+	accRuns         int
 }
 
 func (in *c01Interp) call(br *c01Brk, useHandle, nop bool, o c01Op, what string) bool {
@@ -475,10 +504,16 @@ func (in *c01Interp) call(br *c01Brk, useHandle, nop bool, o c01Op, what string)
 			return c01ErrB
 		case 2:
 			return err
+		case 3:
+			c01DoPanic(o.PV)
 		}
 		return nil
 	}
 	acceptable := func(err error) bool {
+		obs.accRuns++
+		if o.AP == 1 {
+			c01DoPanic(o.PV)
+		}
 		id := c01ErrID(err)
 		return id >= 0 && o.Acc&(1<<uint(id)) != 0
 	}
@@ -547,7 +582,7 @@ func (in *c01Interp) call(br *c01Brk, useHandle, nop bool, o c01Op, what string)
 			in.fail = fmt.Sprintf("%s: call rejected although the window (successes=%d,total=%d) does not satisfy total-5 > 1.5*successes", what, acc0, tot0)
 			return false
 		}
-		if obs.panicked {
+		if obs.panicked && !(hasFb && o.Fb == 3) {
 			in.fail = fmt.Sprintf("%s: rejected call panicked with %v", what, obs.pval)
 			return false
 		}
@@ -556,6 +591,14 @@ func (in *c01Interp) call(br *c01Brk, useHandle, nop bool, o c01Op, what string)
 			if obs.fbRuns != 1 || obs.fbArg != ErrServiceUnavailable {
 				in.fail = fmt.Sprintf("%s: rejected call: fallback ran %d times with %v, want once with ErrServiceUnavailable", what, obs.fbRuns, obs.fbArg)
 				return false
+			}
+			if o.Fb == 3 {
+				// the fallback of a rejected call panics: the statement fixes that the protected
+				// function did not run, what the fallback received and (checkWindows, after this
+				// call) that nothing is recorded for a rejected call; what the caller sees of
+				// the fallback's panic is not stated and not judged
+				in.classes["rejected-fallback-panics"] = true
+				return true
 			}
 			want := []error{nil, c01ErrB, ErrServiceUnavailable}[o.Fb%3]
 			if obs.ret != want {
@@ -575,22 +618,33 @@ func (in *c01Interp) call(br *c01Brk, useHandle, nop bool, o c01Op, what string)
 			in.fail = fmt.Sprintf("%s: admitted call also ran the fallback", what)
 			return false
 		}
-		if o.Out == 4 {
+		// the caller's acceptable-predicate panics while it judges the result of an admitted
+		// call (a disabled breaker never consults the predicate): a panic of the admitted
+		// call like one of the protected function - one outcome, a failure, re-raised
+		predPanics := (o.Via == 1 || o.Via == 3) && o.AP == 1 && o.Out != 4 && !nop
+		switch {
+		case o.Out == 4:
 			in.classes["panic-admitted"] = true
 			in.classes[fmt.Sprintf("panic-value-kind-%d", o.PV)] = true
 			if !obs.panicked || !c01PanicSame(o.PV, obs.pval) {
 				in.fail = fmt.Sprintf("%s: panic (value kind %d) in the protected function not re-raised unchanged (panicked=%v value=%v)", what, o.PV, obs.panicked, obs.pval)
 				return false
 			}
-		} else if obs.panicked || obs.ret != wantErr {
+		case predPanics:
+			in.classes["acceptable-predicate-panics"] = true
+			if !obs.panicked || !c01PanicSame(o.PV, obs.pval) {
+				in.fail = fmt.Sprintf("%s: panic (value kind %d) in the acceptable-predicate of an admitted call not re-raised unchanged (panicked=%v value=%v)", what, o.PV, obs.panicked, obs.pval)
+				return false
+			}
+		case obs.panicked || obs.ret != wantErr:
 			in.fail = fmt.Sprintf("%s: admitted call returned %v (panicked=%v %v), protected function returned %v", what, obs.ret, obs.panicked, obs.pval, wantErr)
 			return false
 		}
 		if !nop {
 			ok := false
-			if o.Out != 4 {
+			if o.Out != 4 && !predPanics {
 				if o.Via == 1 || o.Via == 3 {
-					ok = o.Acc&(1<<uint(o.Out)) != 0
+					ok = o.Acc&(1<<c01AccBit(o.Out)) != 0
 					if ok && o.Out != 0 {
 						in.classes["acceptable-error-success"] = true
 					}
@@ -603,6 +657,9 @@ func (in *c01Interp) call(br *c01Brk, useHandle, nop bool, o c01Op, what string)
 			}
 			if o.Out == 3 {
 				in.classes["req-returns-ErrServiceUnavailable"] = true
+			}
+			if o.Out == 5 {
+				in.classes["req-returns-wrapped-ErrServiceUnavailable"] = true
 			}
 			br.m.record(obs.markAt, ok)
 		}
@@ -981,15 +1038,22 @@ func c01GenCall(rt *rapid.T, ntargets, ng int, budget *int) c01Op {
 	o.G = rapid.IntRange(0, ng-1).Draw(rt, "g")
 	o.Via = rapid.IntRange(0, 3).Draw(rt, "via")
 	o.Rt = rapid.IntRange(0, 2).Draw(rt, "rt")
-	o.Out = rapid.SampledFrom([]int{0, 0, 0, 0, 1, 1, 1, 1, 2, 3, 4, 4}).Draw(rt, "out")
+	o.Out = rapid.SampledFrom([]int{0, 0, 0, 0, 1, 1, 1, 1, 2, 3, 4, 4, 5}).Draw(rt, "out")
 	if o.Out == 4 {
-		o.PV = rapid.IntRange(0, 5).Draw(rt, "pv")
+		o.PV = rapid.IntRange(0, 6).Draw(rt, "pv")
 	}
 	if o.Via == 1 || o.Via == 3 {
-		o.Acc = rapid.SampledFrom([]int{1, 1, 1, 3, 5, 9, 15, 0, 2, 14, 6}).Draw(rt, "acc")
+		o.Acc = rapid.SampledFrom([]int{1, 1, 1, 3, 5, 9, 15, 0, 2, 14, 6, 17, 31, 16}).Draw(rt, "acc")
+		if o.Out != 4 && rapid.IntRange(0, 7).Draw(rt, "ap") == 0 {
+			o.AP = 1
+			o.PV = rapid.IntRange(0, 6).Draw(rt, "appv")
+		}
 	}
 	if o.Via >= 2 {
-		o.Fb = rapid.IntRange(0, 2).Draw(rt, "fb")
+		o.Fb = rapid.IntRange(0, 3).Draw(rt, "fb")
+		if o.Fb == 3 && o.Out != 4 && o.AP == 0 {
+			o.PV = rapid.IntRange(0, 6).Draw(rt, "fbpv")
+		}
 	}
 	o.N = rapid.SampledFrom([]int{1, 1, 1, 1, 2, 3, 6, 7, 8, 12, 30, 100, 400, 2000}).Draw(rt, "n")
 	if o.N > *budget {
@@ -1403,7 +1467,7 @@ func c01InterpPar(t *testing.T, c c01PCase) (v kit.Verdict) {
 							return
 						}
 						if pc.Via == 1 || pc.Via == 3 {
-							ok = pc.Acc&(1<<uint(pc.Out)) != 0
+							ok = pc.Acc&(1<<c01AccBit(pc.Out)) != 0
 						} else {
 							ok = pc.Out == 0
 						}
@@ -1528,14 +1592,14 @@ func c01GenPar(rt *rapid.T) c01PCase {
 		for j := 0; j < n; j++ {
 			pc := c01PCall{T: rapid.IntRange(0, nb-1).Draw(rt, "t")}
 			pc.Allow = rapid.IntRange(0, 4).Draw(rt, "allow") == 0
-			pc.Out = rapid.SampledFrom([]int{0, 0, 0, 1, 1, 1, 2, 3, 4}).Draw(rt, "out")
+			pc.Out = rapid.SampledFrom([]int{0, 0, 0, 1, 1, 1, 2, 3, 4, 5}).Draw(rt, "out")
 			if !pc.Allow {
 				pc.Via = rapid.IntRange(0, 3).Draw(rt, "via")
 				if pc.Out == 4 {
 					pc.PV = rapid.IntRange(0, 3).Draw(rt, "pv")
 				}
 				if pc.Via == 1 || pc.Via == 3 {
-					pc.Acc = rapid.SampledFrom([]int{1, 1, 3, 9, 15, 0, 14}).Draw(rt, "acc")
+					pc.Acc = rapid.SampledFrom([]int{1, 1, 3, 9, 15, 0, 14, 17, 31}).Draw(rt, "acc")
 				}
 				if pc.Via >= 2 {
 					pc.Fb = rapid.IntRange(0, 2).Draw(rt, "fb")
